@@ -455,6 +455,44 @@ func handleDownload(c *Client, r *Response) (err error) {
 	return
 }
 
+// pathByteNeedsEscape reports whether c can not appear as is in an encoded URL
+// path (the bytes for which net/url discards URL.RawPath).
+func pathByteNeedsEscape(c byte) bool {
+	if 'a' <= c && c <= 'z' || 'A' <= c && c <= 'Z' || '0' <= c && c <= '9' {
+		return false
+	}
+	switch c {
+	case '-', '_', '.', '~', '$', '&', '+', ',', '/', ':', ';', '=', '@', '!', '\'', '(', ')', '*', '[', ']', '%':
+		return false
+	}
+	return true
+}
+
+// parseURL is url.Parse, except that the escapes already present in the path
+// (such as the "%2F" url.PathEscape produces for a path parameter) are kept even
+// if the path also contains bytes that need escaping (spaces, non-ASCII, braces...).
+// net/url ignores URL.RawPath in that case and re-encodes URL.Path, which would
+// turn an escaped slash of a parameter value into a path separator.
+func parseURL(rawURL string) (*url.URL, error) {
+	u, err := url.Parse(rawURL)
+	if err != nil || u.RawPath == "" || u.EscapedPath() == u.RawPath {
+		return u, err
+	}
+	var b strings.Builder
+	for i := 0; i < len(u.RawPath); i++ {
+		if c := u.RawPath[i]; pathByteNeedsEscape(c) {
+			const upperhex = "0123456789ABCDEF"
+			b.WriteByte('%')
+			b.WriteByte(upperhex[c>>4])
+			b.WriteByte(upperhex[c&15])
+		} else {
+			b.WriteByte(c)
+		}
+	}
+	u.RawPath = b.String()
+	return u, nil
+}
+
 // generate URL
 func parseRequestURL(c *Client, r *Request) error {
 	tempURL := r.RawURL
@@ -470,13 +508,13 @@ func parseRequestURL(c *Client, r *Request) error {
 	}
 
 	// Parsing request URL
-	reqURL, err := url.Parse(tempURL)
+	reqURL, err := parseURL(tempURL)
 	if err != nil {
 		return err
 	}
 
 	if reqURL.Scheme == "" && len(c.scheme) > 0 { // set scheme if missing
-		reqURL, err = url.Parse(c.scheme + "://" + tempURL)
+		reqURL, err = parseURL(c.scheme + "://" + tempURL)
 		if err != nil {
 			return err
 		}
@@ -490,7 +528,7 @@ func parseRequestURL(c *Client, r *Request) error {
 			tempURL = "/" + tempURL
 		}
 
-		reqURL, err = url.Parse(c.BaseURL + tempURL)
+		reqURL, err = parseURL(c.BaseURL + tempURL)
 		if err != nil {
 			return err
 		}
